@@ -54,7 +54,7 @@ RULE = ("nested enumeration, each case generated once: (det) transform x every (
         "textbook value defined). Distinct by construction (distinct argument tuples).")
 ASSUMPTIONS = [
     "trans.forward is trusted (C01/C02 own it): the oracle is the textbook score of trans.forward(obs), trans.forward(sim) read from the same transform object",
-    "degenerate observations (|mean| or sd <= 1e-6 of max|value|, or <= 1e-6 absolute, in raw or transformed space) are executed but never judged; any behaviour incl. NaN is accepted",
+    "degenerate observations (|mean| or sd <= 1e-6 of max|value|, or <= 1e-6 absolute, in raw or transformed space) are executed but never judged; any behaviour incl. NaN is accepted; for NSE under a common affine map (change of unit 1e-7, 2^-30, 1e7) only the relative criterion applies",
     "textbook value undefined -> not judged: normalised bias with mean(sim)+mean(obs) ~ 0, log bias with a non-positive mean, KGE/correlation with constant simulation (or constant ranks)",
     "excludenull: a position is complete when raw and transformed obs and sim are finite, incomplete when a transformed value is NaN/+-inf; raw +-inf mapped to a finite value by the transform (Reciprocal) is ambiguous and not judged; fewer than 2 complete positions is outside the quantifier (length >= 2) and not executed",
     "excludenull=False with NaN/inf present is not judged (the statement only defines the excludenull=True result)",
@@ -111,7 +111,9 @@ LADDER_K = [2, 3, 6, 7, 33, 100, 200]   # category counts (the quantifier stops 
 LADDER_K_MIN_N = {33: 31, 100: 100, 200: 500}   # confusion_matrix inserts absent categories one by one (seconds for 200 absent ones)
 TOL32 = 1e-4                            # float32 series: numpy evaluates the score in float32 (observed noise < 1e-6)
 
-AFFINE = [(2.0, 0.0), (-0.5, 1.5), (1.0, -3.0), (1.0, 262144.0), (1.0, -262144.0)]   # the last two: |mean|/sd ~ 2e5, still non-degenerate (1e-6 relative)
+AFFINE = [(2.0, 0.0), (-0.5, 1.5), (1.0, -3.0), (1.0, 262144.0), (1.0, -262144.0),
+          # small and large units (flows in m3/s vs ML/d vs mm/s): NSE has no absolute scale
+          (1e-7, 0.0), (2.0 ** -30, 0.0), (1e7, 0.0)]   # the last two: |mean|/sd ~ 2e5, still non-degenerate (1e-6 relative)
 SCALES = [3.0, 0.25]
 TINY = 2.0 ** -40
 
@@ -219,14 +221,16 @@ def sstats(fr):
 REL = Fraction(1, 10 ** 6)
 
 
-def degenerate(st):
+def degenerate(st, rel_only=False):
+    """rel_only: the relative criterion of the property alone (used for NSE under a change of unit: NSE has no
+    absolute scale and the implementation no absolute guard)"""
     n, m, ss, scale = st
     if scale == 0:
         return True
-    if abs(m) <= REL * scale or abs(m) <= REL:
+    if abs(m) <= REL * scale or (abs(m) <= REL and not rel_only):
         return True
     var = ss / n
-    if var <= REL * REL * scale * scale or var <= REL * REL:
+    if var <= REL * REL * scale * scale or (var <= REL * REL and not rel_only):
         return True
     return False
 
@@ -342,7 +346,8 @@ def check_det(ctx, M, spec, T, io, is_, ex_too, only=None, tag="formula", exp_ov
         ctx.count("unjudged.forward_nonfinite")
         ctx.case(False)
         return
-    deg = degenerate(io.st) or degenerate(io.straw)
+    rel_only = (tag == "affine-invariance")
+    deg = degenerate(io.st, rel_only) or degenerate(io.straw, rel_only)
     exp = None
     if not deg:
         exp = exp_override if exp_override is not None else expected_scores(io.tf, is_.tf)
